@@ -194,7 +194,7 @@ def entries : List String :=
    "kzgbatchopen", "multiexp", "fft", "mimc", "poseidon2", "sis", "batchscalarmul", "batchjactoaff", "iop", "vector", "codec",
    "edwards", "polypool", "mdhasher",
    "plookupvec", "plookuptab", "permutation", "fri", "shplonk", "fflonk", "pedersen", "iopratio", "kzglagrange", "polynomial",
-   "vortex", "merkle"]
+   "vortex", "merkle", "scalarexp", "hashto"]
 
 /-- entry points that switch to a goroutine / `parallel.Execute` implementation above some size: the `C18 par` lines run
 them above that size (same list as `c18ParEntries` in the harness) -/
@@ -208,10 +208,15 @@ def curves : List String :=
 
 def smallFields : List String := ["koalabear", "babybear", "goldilocks"]
 
+/-- packages outside the pairing-curve template -/
+def g1Curves : List String := ["secp256k1", "grumpkin", "stark-curve"]
+
 /-- which (entry, curve/field) pairs exist in the library (same table as `c18Supported` in the harness) -/
 def supported (e c : String) : Bool :=
   entries.contains e &&
-    (if e == "sis" then c == "bls12-377" || smallFields.contains c
+    (if e == "scalarexp" then curves.contains c || smallFields.contains c || g1Curves.contains c || c == "bandersnatch"
+     else if e == "hashto" then curves.contains c || smallFields.contains c || g1Curves.contains c
+     else if e == "sis" then c == "bls12-377" || smallFields.contains c
      else if e == "poseidon2" || e == "fft" then curves.contains c || smallFields.contains c
      else if e == "vortex" || e == "merkle" then c == "koalabear"
      else curves.contains c)
